@@ -263,6 +263,23 @@ def nest_track(F):
     if not ok:
         r.violate("%s | End pop" % fn["path"], F.loc(fn), "a Payload::End does not close exactly one nesting level (pops=%d)" % len(pops))
     r.count("stack_pushes", len(pushes))
+    # the recursive parse is handed the bytes of the nested component together with the absolute offset those bytes start
+    # at: nested_bytes(wasm, &R, start) cuts R out of the current slice, so the callee's `start` is exactly R.start
+    # (parser ranges are absolute); anything else makes every range of a deeper item relative to the wrong origin
+    for c in walk(fn["body"]):
+        if c.get("k") == "Call" and (c.get("callee") or "").endswith("parse_comp") and len(c["args"]) >= 4:
+            nb = [x for x in walk(c["args"][0]) if x.get("k") == "Call" and (x.get("callee") or "").endswith("nested_bytes")]
+            rng = None
+            if nb and len(nb[0]["args"]) >= 2:
+                rng = place_path(nb[0]["args"][1])
+            st_arg = None
+            for a_ in c["args"][1:]:
+                if a_.get("ty") == "usize":
+                    st_arg = a_
+            ok = rng is not None and st_arg is not None and peel(st_arg).get("k") == "Field" and place_path(st_arg) == rng + ".start"
+            r.ob(ok, {"nested start offset": place_path(st_arg) if st_arg is not None and peel(st_arg).get("k") == "Field" else "computed", "range": rng})
+            if not ok:
+                r.violate("%s | nested start offset" % fn["path"], F.loc(fn, c), "the recursive parse of a nested component does not receive `<range>.start` of the very range its bytes were cut from as the new absolute offset: items nested one level further are sliced at the wrong position")
     # recursion uses a fresh activation (no stack is shared between levels) or, if a stack parameter exists, passes its own
     for c in walk(fn["body"]):
         if c.get("k") == "Call" and (c.get("callee") or "").endswith("parse_comp"):
@@ -306,4 +323,48 @@ def rec_dispatch(F):
     r.count("rec_emissions", n)
     if n < 3:
         raise CheckError("expected ≥3 `.rec(..)` emission sites (module, component core types ×2, module-type declarations), found %d" % n)
+    return r
+
+
+
+def name_section_guard(F):
+    """R-NAME-GUARD: if the emission of the component name section is conditional, the condition must take every name
+    map that is appended to it into account (otherwise a component that only names the omitted kinds loses the section)."""
+    r = RuleResult("R-NAME-GUARD",
+                   "Component::encode_comp emits the component-name section unconditionally, or under a condition that mentions every name map it appends")
+    fn = F.one_fn(name="encode_comp", self_adt="Component")
+    r.analysed.append(fn["path"])
+    from vlib.facts import conditional_ancestors
+    appended = set()
+    for c in walk(fn["body"]):
+        if c.get("k") == "MethodCall" and "ComponentNameSection" in (c.get("recv_ty") or "") and c["args"]:
+            for x in walk(c["args"][0]):
+                if x.get("k") == "Field" and (x["name"].endswith("_names") or x["name"].endswith("_name")):
+                    appended.add(x["name"])
+    sinks = [c for c in walk(fn["body"]) if c.get("k") == "MethodCall" and c["method"] == "section" and c["args"] and "ComponentNameSection" in (c["args"][0].get("ty") or "")]
+    if len(sinks) != 1 or len(appended) < 8:
+        raise CheckError("encode_comp: name section emission not found (sinks=%d, name maps=%d)" % (len(sinks), len(appended)))
+    r.count("name_maps_appended", len(appended))
+    conds = conditional_ancestors(fn["body"], sinks[0]) or []
+    mentioned = set()
+    for c_ in conds:
+        cd = c_.get("cond") or {}
+        stack_, seen = [cd], set()
+        while stack_:
+            e_ = stack_.pop()
+            for x in walk(e_):
+                if x.get("k") == "Field":
+                    mentioned.add(x["name"])
+                if x.get("k") == "Path" and x.get("res", {}).get("r") == "local" and x["res"]["hid"] not in seen:
+                    seen.add(x["res"]["hid"])
+                    for st in walk(fn["body"]):
+                        if st.get("k") == "Let" and st["pat"].get("hid") == x["res"]["hid"] and "init" in st:
+                            stack_.append(st["init"])
+    # only guards that talk about names at all are judged (an enclosing `match section_kind` is not a names guard)
+    guards_names = bool(mentioned & appended)
+    missing = sorted(appended - mentioned) if guards_names else []
+    ok = not missing
+    r.ob(ok, {"name section guarded": guards_names, "maps_not_considered": missing})
+    if not ok:
+        r.violate("%s | name guard misses %s" % (fn["path"], "+".join(missing)), F.loc(fn, sinks[0]), "the component-name section is emitted only if some of the name maps are non-empty, but %s are appended to it without being considered: a component that names only those loses its name section" % missing)
     return r
